@@ -267,7 +267,7 @@ func paramIndex(p *ssa.Parameter) int {
 func desc(v ssa.Value) string { return descD(v, 0) }
 
 func descD(v ssa.Value, depth int) string {
-	if depth > 12 {
+	if depth > 40 {
 		return "…"
 	}
 	switch x := v.(type) {
@@ -410,6 +410,28 @@ func descD(v ssa.Value, depth int) string {
 		}
 		return "phi(" + strings.Join(es, "|") + ")"
 	case *ssa.Alloc:
+		// a local that merely holds a copy of a value (spilled parameter, range element copy): transparent
+		if !x.Heap || true {
+			var whole []ssa.Value
+			for _, r := range referrersOf(x) {
+				if st, ok := r.(*ssa.Store); ok && st.Addr == ssa.Value(x) {
+					whole = append(whole, st.Val)
+				}
+			}
+			if len(whole) == 1 {
+				if _, isStruct := x.Type().(*types.Pointer).Elem().Underlying().(*types.Struct); isStruct {
+					switch w := whole[0].(type) {
+					case *ssa.Parameter, *ssa.Extract, *ssa.Field, *ssa.Index, *ssa.Lookup:
+						return descD(whole[0], depth+1)
+					case *ssa.UnOp:
+						// copy of a slice/array element (range value); a copy of *ptrParam stays a distinct object
+						if _, isElem := w.X.(*ssa.IndexAddr); isElem {
+							return descD(whole[0], depth+1)
+						}
+					}
+				}
+			}
+		}
 		et := x.Type().(*types.Pointer).Elem()
 		if n, ok := et.(*types.Named); ok {
 			et = canonNamed(n)
